@@ -4,8 +4,11 @@
 //   pure    value lattice on CoopCloseBalance + CreateCooperativeCloseTx from both perspectives
 //   api     CreateCloseProposal x2 + CompleteCooperativeClose x2 on real channels (all 7 types,
 //           both openers, legacy and RBF options, delivery-script pairs, fee lattice)
-//   legacy  two real chancloser.ChanCloser negotiating over all ideal-fee pairs
-//   rbf     the two rbf_coop state machines driven event by event through fee ladders
+//   legacy  two real chancloser.ChanCloser negotiating over all ideal-fee pairs (caps 1x/3x/exact,
+//           shutdown by either party or both at once, early offer, upfront scripts, thaw height,
+//           low balances with lnd's own fee estimator)
+//   rbf     the two rbf_coop state machines driven event by event through fee ladders (early-offer
+//           windows, crossed bumps, reconnect with fresh machines, upfront scripts, thaw height)
 package c17
 
 import (
@@ -282,8 +285,10 @@ func TestC17(t *testing.T) {
 	run.Assumptions = append(run.Assumptions,
 		"fixed key material and funding outpoint; MuSig2 nonces are random (no oracle depends on them)",
 		"delivery scripts are well-formed p2wkh/p2wsh/p2tr; OP_RETURN delivery (RBF flow zeroes the amount) and aux/custom-channel extra outputs are outside the alphabet",
-		"RBF state machines are driven synchronously through their ProcessEvent methods with the real message mapper; protofsm's goroutine executor, link flushing and chain notifications are replaced by the harness driver (Environment.BlockHeight = 0 as in peer.initRbfChanCloser)",
-		"negotiation alphabet: ideal fees in [100,700] sat, caps 1x/3x; balances large enough for the opener to afford every fee in that range",
+		"RBF state machines are driven synchronously through their ProcessEvent methods with the real message mapper; protofsm's goroutine executor, link flushing and chain notifications are replaced by the harness driver (Environment.BlockHeight = 0 as in peer.initRbfChanCloser); the driver controls when the link's flush event and a post-send event are handed in (early-offer windows) and models a reconnect as fresh machines without a link on freshly loaded channel objects (ResetState)",
+		"negotiation alphabet: ideal fees in [100,700] sat (low-balance channels: [100,400] sat, or 200..500 sat/kw through lnd's SimpleCoopFeeEstimator), caps 1x / 3x / exactly the other side's ideal; the opener can afford every fee in the range",
+		"upfront shutdown scripts are {none, equal to the delivery scripts}; a frozen (lease) channel is closed at {far above, exactly at} its thaw height; closes below the thaw height and mismatching upfront scripts (honest refusals) are not enumerated",
+		"the RBF flow uses the harness fee estimator (absolute fee = sat/vbyte value); lnd's SimpleCoopFeeEstimator is exercised in the legacy flow only",
 	)
 	code := run.Finish(cov)
 	if code != 0 {
